@@ -257,23 +257,59 @@ func checkC14(c *Ctx) *core.Result {
 
 	// ---- A4: the look-up chain of the word lexer is an exact match
 	{
-		pins := map[ssa.Value]interface{}{}
-		for _, ci := range ssax.Calls(word) {
-			if ci.Common().StaticCallee() != lookup {
-				continue
-			}
-			for i, arg := range ci.Common().Args {
-				if k, ok := ssax.ConstInt(arg); ok && i < len(lookup.Params) && isIntType(lookup.Params[i].Type()) {
-					if old, dup := pins[lookup.Params[i]]; dup && old != interface{}(k) {
-						delete(pins, lookup.Params[i])
-						continue
-					}
-					pins[lookup.Params[i]] = k
+		// every call in the word lexer and in merge that turns a string into a class
+		seen := map[*ssa.Function]bool{}
+		isClass := func(t types.Type) bool {
+			b, ok := t.Underlying().(*types.Basic)
+			return ok && b.Kind() == types.Uint8
+		}
+		nA4 := 0
+		for _, user := range []*ssa.Function{word, merge} {
+			for _, ci := range ssax.Calls(user) {
+				callee := ci.Common().StaticCallee()
+				if callee == nil || !p.InModule(callee) || callee == assign || callee.Signature.Results().Len() != 1 || !isClass(callee.Signature.Results().At(0).Type()) {
+					continue
 				}
+				hasStr := false
+				pins := map[ssa.Value]interface{}{}
+				for i, arg := range ci.Common().Args {
+					if isStringType(arg.Type()) {
+						hasStr = true
+					}
+					if k, ok := ssax.ConstInt(arg); ok && i < len(callee.Params) && isIntType(callee.Params[i].Type()) {
+						pins[callee.Params[i]] = k
+					}
+				}
+				if !hasStr {
+					continue
+				}
+				nA4++
+				if seen[callee] {
+					continue
+				}
+				// the mode constant must be the same at every call from the word lexer / merge
+				for _, user2 := range []*ssa.Function{word, merge} {
+					for _, cj := range ssax.Calls(user2) {
+						if cj.Common().StaticCallee() != callee {
+							continue
+						}
+						for i, arg := range cj.Common().Args {
+							if i < len(callee.Params) {
+								if old, has := pins[callee.Params[i]]; has {
+									if k, ok := ssax.ConstInt(arg); !ok || interface{}(k) != old {
+										delete(pins, callee.Params[i])
+									}
+								}
+							}
+						}
+					}
+				}
+				exactMatchRule(p, r, callee, pins, 0, seen)
 			}
 		}
-		seen := map[*ssa.Function]bool{}
-		exactMatchRule(p, r, lookup, pins, 0, seen)
+		if nA4 < 2 {
+			r.Fail("vacuity", "-", "A4 look-up calls", "-", fmt.Sprintf("only %d string → class calls found in the word lexer and merge (expected ≥ 2)", nA4))
+		}
 		if !seen[search] {
 			exactMatchRule(p, r, search, nil, 0, seen)
 		}
@@ -281,7 +317,7 @@ func checkC14(c *Ctx) *core.Result {
 
 	r.Extra["a1_candidates"] = count
 	r.Extra["fold_blocks"] = map[string]int{"reachable_under_{n,1}": nReach, "unreachable": nDead}
-	r.Explanation = "A1 (E2, exhaustive): none of the 62 strings 0+{N,1}^{1..5} is an 'F' key of the keyword table. A2 (abstract guard evaluation of fold and of the pass function: every load of a token class yields the set {0,n,1}, strOpen/strClose {0}; helper predicates are evaluated the same way; the phrase look-up in merge misses by the family's definition): no reachable instruction rewrites a class, copies a token, bumps the fold counter or decrements pos/left — i.e. no folding rule fires on bareword/number streams, so the fingerprint is the class string of the first ≤5 tokens, which A1 shows is not black-listed. A3 (E2 dispatch evaluation): letters, '_', 0x80–0xFF except 0xA0 dispatch to the word lexer or to a lexer that falls back to it; digits dispatch to the number lexer; the word lexer only assigns bareword or a keyword-table value. A4: the look-up chain used by the word lexer (mode parameter pinned to the constant it passes) returns only 0, the next look-up of the chain on the same word, a string-keyed map look-up keyed by a string function of the word, or a value guarded by a string equality on the word — a table value is never handed out on a hash or cache slot alone. NOT decided: the exact class of every word (needs lexing); the e-mail / decimal / sentence shapes."
+	r.Explanation = "A1 (E2, exhaustive): none of the 62 strings 0+{N,1}^{1..5} is an 'F' key of the keyword table. A2 (abstract guard evaluation of fold and of the pass function: every load of a token class yields the set {0,n,1}, strOpen/strClose {0}; helper predicates are evaluated the same way; the phrase look-up in merge misses by the family's definition): no reachable instruction rewrites a class, copies a token, bumps the fold counter or decrements pos/left — i.e. no folding rule fires on bareword/number streams, so the fingerprint is the class string of the first ≤5 tokens, which A1 shows is not black-listed. A3 (E2 dispatch evaluation): letters, '_', 0x80–0xFF except 0xA0 dispatch to the word lexer or to a lexer that falls back to it; digits dispatch to the number lexer; the word lexer only assigns bareword or a keyword-table value. A4: every string → class look-up called by the word lexer and by merge (mode parameter pinned to the constant they pass), and the functions it delegates to, returns only 0, the next look-up of the chain on the same word, a string-keyed map look-up keyed by a string function of the word, or a value guarded by a string equality on the word — a table value is never handed out on a hash or cache slot alone. NOT decided: the exact class of every word (needs lexing); the e-mail / decimal / sentence shapes."
 	r.Trusted = []string{"go/ssa", "abstract guard evaluation (finite byte sets, three-valued bools)", "go/types constants of the table literal", "closed-initialiser evaluation of the dispatch table"}
 	r.Assumptions = []string{"family definition: no word or adjacent word pair is (a component of) a keyword-table key"}
 	return r
@@ -304,17 +340,13 @@ func exactMatchRule(p *core.Program, r *core.Result, fn *ssa.Function, pins map[
 	}
 	seen[fn] = true
 	qn := core.QualName(fn)
-	var word *ssa.Parameter
+	words := map[*ssa.Parameter]bool{}
 	for _, prm := range fn.Params {
 		if isStringType(prm.Type()) {
-			if word != nil {
-				r.Fail("A4", qn, "word parameter", p.Pos(fn.Pos()), "the look-up has more than one string parameter: which one is the word is undecided")
-				return
-			}
-			word = prm
+			words[prm] = true
 		}
 	}
-	if word == nil {
+	if len(words) == 0 {
 		r.Fail("A4", qn, "word parameter", p.Pos(fn.Pos()), "the look-up has no string parameter (undecided)")
 		return
 	}
@@ -325,11 +357,14 @@ func exactMatchRule(p *core.Program, r *core.Result, fn *ssa.Function, pins map[
 		}
 		switch x := v.(type) {
 		case *ssa.Parameter:
-			return x == word
+			return words[x]
 		case *ssa.Const:
 			return true
 		case *ssa.Slice:
 			return derived(x.X, d+1)
+		case *ssa.BinOp:
+			// concatenation of (parts of) the word(s) and constants: "A" + " " + "B"
+			return x.Op == token.ADD && isStringType(x.Type()) && derived(x.X, d+1) && derived(x.Y, d+1)
 		case *ssa.ChangeType:
 			return derived(x.X, d+1)
 		case *ssa.Convert:
